@@ -233,7 +233,7 @@ def effective_range(rg):
     return rg
 
 def po_file(cases, pf, charset=True):
-    """PO text for messages that share one header; each message gets a unique marker so its tags can be told apart"""
+    """PO bytes for messages that share one header; each message gets a unique marker so its tags can be told apart"""
     fields = [(k, v) for k, v in GOOD_HEADER if charset or k != 'Content-Type']
     if pf is not None:
         fields.append(('Plural-Forms', pf))
@@ -284,13 +284,22 @@ def gen_file(rng, n_messages):
         for key in ('msgid',):
             case[key] = dict(case[key], text=marker + case[key]['text'])
         case['marker'] = marker
+        if not charset:
+            # without a charset declaration the loader reads the UTF-8 bytes as ISO-8859-1: that is what the checks then see
+            l1 = lambda s: dict(s, text=s['text'].encode('utf-8').decode('iso-8859-1'))
+            case['msgid'], case['msgstr'] = l1(case['msgid']), l1(case['msgstr'])
+            if case['msgid_plural'] is not None:
+                case['msgid_plural'] = l1(case['msgid_plural'])
+            case['msgstr_plural'] = {i: l1(s) for i, s in case['msgstr_plural'].items()}
+            if case['msgctxt'] is not None:
+                case['msgctxt'] = case['msgctxt'].encode('utf-8').decode('iso-8859-1')
         cases.append(case)
     return cases, pf, template, charset
 
 def run_e2e(cases, pf, template, charset, workdir):
     """the real `Checker.check()` on the file; -> per message canonical output"""
     path = os.path.join(workdir, 'f.pot' if template else 'f.po')
-    with open(path, 'w', encoding='utf-8') as f:
+    with open(path, 'w', encoding='utf-8' if charset else 'iso-8859-1') as f:
         f.write(po_file(cases, pf, charset))
     checker, calls = H.make_checker(path)
     try:
